@@ -206,9 +206,10 @@ def scenarios(pid, tier, rng):
         return fam_kinds(rng, pid, ALL_KINDS, k(300, 1800), twins=(), tf_share=0.3)
     if pid == "C01":
         return (fam_kinds(rng, pid, ALL_KINDS, k(200, 1200), tf_share=0.6)
-                + fam_chain(rng, pid, k(40, 200)))
+                + fam_chain(rng, pid, k(40, 200)) + fam_amorph(rng, pid, k(40, 240)))
     if pid == "C02":
-        return fam_kinds(rng, pid, ALL_KINDS, k(260, 1500), twins=("longer",), tf_share=0.5)
+        return (fam_kinds(rng, pid, ALL_KINDS, k(260, 1500), twins=("longer",), tf_share=0.5)
+                + fam_amorph(rng, pid, k(40, 240), twins=("longer",)))
     if pid == "C03":
         return fam_manager(rng, pid, k(300, 2000))
     if pid == "C12":
@@ -223,6 +224,11 @@ def scenarios(pid, tier, rng):
                               kinds=("SMA", "EMA", "RSI", "STOCH", "ATR", "MACD", "BBANDS", "OBV"), tag="b"))
     if pid == "C18":
         return fam_manager(rng, pid, k(320, 2000), tzs=TZS[1:], fills=(False, True), hexshare=0.15)
+    if pid == "C16":
+        return (fam_movement(rng, pid, k(120, 800)) + fam_patterns(rng, pid, k(60, 400))
+                + fam_amorph(rng, pid, k(60, 400)))
+    if pid == "C17":
+        return fam_movement(rng, pid, k(140, 900)) + fam_patterns(rng, pid, k(140, 900))
     if pid == "C14":
         return fam_maintenance(rng, pid, k(240, 1500))
     if pid == "C13":
@@ -557,4 +563,176 @@ def fam_work(rng, pid, count):
                    "prog": [("new", hist), ("calculate", "")] + [("append", hist + i, hist + i) for i in range(1, 7)],
                    "clause_props": {"work": ["C07"], "exc": ["C07"]}})
         out.append(sc)
+    return out
+
+
+# ---------------------------------------------------------------------------------------
+# analysis functions called directly on candle lists (C16, C17)
+MOVE2 = ("above", "below", "cross", "crossover", "crossunder")
+MOVE1 = ("rising", "falling", "mean_rising", "mean_falling", "highest", "lowest", "highestbar", "lowestbar",
+         "value_range")
+PATS = ("doji", "dojistar", "hammer", "inv_hammer")
+AN_PROPS = {"an": ["C16", "C17"], "geo": ["C17"], "exc": ["C16"], "sideeffect": ["C16"]}
+
+
+def _calls(rng, n, fns, idxs, lens, per=2):
+    rd = []
+    for fn in fns:
+        for i in idxs:
+            for _ in range(per):
+                L = rng.choice(lens)
+                a, b = ("a", "b") if rng.random() < 0.7 else ("b", "a")
+                if fn in PATS:
+                    a = b = ""
+                    L = rng.choice([None, None, 1, 2, 3])
+                elif fn in ("above", "below", "positive", "negative"):
+                    L = None
+                variants = ["at", "neg", "trunc"] + (["default"] if i == n - 1 else [])
+                for var in variants:
+                    if var in ("trunc", "default") and fn in ("above", "below") and False:
+                        continue
+                    rd.append(("an", fn, a, b, L, i, var))
+    return rd
+
+
+def _transform(stream, readings, mul, add):
+    st = [(t, o * mul + add, h * mul + add, l * mul + add, c * mul + add, v) for t, o, h, l, c, v in stream]
+    rd = [{k: (None if x is None else x * mul + add) for k, x in r.items()} for r in readings]
+    return st, rd
+
+
+def fam_movement(rng, pid, count):
+    out = []
+    for t in range(count):
+        n = rng.randint(2, 9)
+        vals = [None, 1, 2, 3, 2.5, 1, 2]
+        readings = [{"a": rng.choice(vals), "b": rng.choice(vals)} for _ in range(n)]
+        if rng.random() < 0.2:      # a series that starts late / stops early
+            for r in readings[:rng.randint(1, n)]:
+                r["a"] = None
+        stream = make_stream(rng, n, "walk")
+        mul, add = rng.choice([(1, 0), (1, 0), (2, 0), (10, 0), (0.5, 0), (1, 100), (1, 1)])
+        stream, readings = _transform(stream, readings, mul, add)
+        idxs = list(range(n))
+        rd = _calls(rng, n, MOVE1 + MOVE2, idxs, [1, 1, 2, 3, 4, 5, None], per=1)
+        rd += _calls(rng, n, ("positive", "negative"), idxs, [None], per=1)
+        rd += [("geo", i) for i in idxs]
+        rng.shuffle(rd)
+        out.append({"id": f"{pid}/move/{t}", "fam": "analysis", "obj": "list", "inds": [], "stream": stream,
+                    "readings": readings, "prog": [("new", n), ("reads", rd)], "twins": [],
+                    "clause_props": AN_PROPS})
+    return out
+
+
+def _neutral(k, lvl=20.0):
+    """k quiet candles: body 2, range 4, alternating direction"""
+    out = []
+    for i in range(k):
+        if i % 2 == 0:
+            out.append((lvl, lvl + 3, lvl - 1, lvl + 2, 5))
+        else:
+            out.append((lvl + 2, lvl + 3, lvl - 1, lvl, 5))
+    return out
+
+
+def pattern_case(rng, name, witness):
+    """a neutral history followed by a candle built to meet every clause of `name` with a margin of
+    at least 2x (witness) or to break exactly one clause clearly (counter-witness)"""
+    hist = _neutral(rng.randint(11, 13))
+    po, ph, pl, pc, _ = hist[-1]
+    which = None if witness else rng.randrange(4)
+    if name == "doji":
+        body = 0.1 if witness else 1.5
+        o = 21.0
+        c = o + body
+        cand = (o, max(o, c) + 1, min(o, c) - 1, c, 5)
+    elif name == "dojistar":
+        # long previous candle, then a doji whose body gaps away from it
+        prev = (20.0, 26.5, 19.5, 26.0, 5) if which != 0 else (20.0, 21.5, 19.5, 21.0, 5)
+        hist[-1] = prev
+        top = max(prev[0], prev[3])
+        gap = 1.0 if which != 2 else -2.0
+        body = 0.1 if which != 1 else 2.0
+        o = top + gap
+        c = o + body
+        cand = (o, max(o, c) + 1, min(o, c) - 1, c, 5)
+    elif name == "hammer":
+        body = 0.5 if which != 0 else 4.5
+        lower = 3.0 if which != 1 else 0.1
+        upper = 0.1 if which != 2 else 2.0
+        lo_body = pl + (0.2 if which != 3 else 4.0)      # near the previous low
+        o, c = lo_body, lo_body + body
+        cand = (o, c + upper, o - lower, c, 5)
+    else:  # inverted hammer
+        body = 0.5 if which != 0 else 4.5
+        upper = 3.0 if which != 1 else 0.1
+        lower = 0.1 if which != 2 else 2.0
+        hi_body = min(po, pc) - (1.0 if which != 3 else -3.0)    # body gaps below the previous body
+        c, o = hi_body, hi_body - body
+        cand = (o, c + upper, o - lower, c, 5)
+    tail = _neutral(rng.randint(0, 2), lvl=cand[3])
+    prices = hist + [cand] + tail
+    return prices, len(hist)
+
+
+def fam_patterns(rng, pid, count):
+    out = []
+    for t in range(count):
+        if t % 3 == 2:
+            n = rng.randint(11, 16)
+            stream = make_stream(rng, n, rng.choice(["walk", "mixed", "decimal"]))
+            focus = list(range(8, n))
+        else:
+            name = PATS[t % len(PATS)]
+            prices, at = pattern_case(rng, name, witness=rng.random() < 0.5)
+            stream = [(i * 60,) + p for i, p in enumerate(prices)]
+            n = len(stream)
+            focus = list(range(max(8, at - 1), n))
+        readings = [{} for _ in range(n)]
+        mul, add = rng.choice([(1, 0), (1, 0), (2, 0), (10, 0), (0.5, 0), (1, 100), (1, 1)])
+        stream, readings = _transform(stream, readings, mul, add)
+        rd = _calls(rng, n, PATS, focus, [None], per=2)
+        rd += [("geo", i) for i in focus]
+        out.append({"id": f"{pid}/pattern/{t}", "fam": "analysis", "obj": "list", "inds": [], "stream": stream,
+                    "readings": readings, "prog": [("new", n), ("reads", rd)], "twins": [],
+                    "clause_props": AN_PROPS})
+    return out
+
+
+def amorph_cfg(rng, src_name=None):
+    # the functions of the movement and pattern maps (above/below are not in them)
+    fn = rng.choice(list(MOVE1) + ["cross", "crossover", "crossunder", "positive", "negative"] + list(PATS))
+    if fn in PATS:
+        return IndCfg("Amorph", fn=fn, p=rng.choice([0, 0, 2, 3]))
+    if fn in ("positive", "negative"):
+        return IndCfg("Amorph", fn=fn)
+    a = src_name or rng.choice(["close", "high", "low"])
+    b = rng.choice(["open", "close", "low"])
+    if fn in ("above", "below"):
+        return IndCfg("Amorph", fn=fn, inp=a, inp2=b)
+    if fn in MOVE2:
+        return IndCfg("Amorph", fn=fn, inp=a, inp2=b, p=rng.randint(1, 3))
+    return IndCfg("Amorph", fn=fn, inp=a, p=rng.randint(1, 4))
+
+
+def fam_amorph(rng, pid, count, twins=("batch",)):
+    """analysis functions wrapped as indicators: same column live and in batch"""
+    out = []
+    for t in range(count):
+        if t % 2 == 0:
+            cfg = amorph_cfg(rng)
+            n = rng.randint(12, 18)
+            out.append(ind_scenario(rng, f"{pid}/amorph/{cfg.fn}/{t}", "amorph", cfg, n, rng.choice(["walk", "mixed"]),
+                                    twins, extra=rng.randint(1, 4) if "longer" in twins else 0))
+        else:
+            src = rand_cfg(rng, rng.choice(["EMA", "SMA", "RSI", "ATR"]))
+            live = src.build(standalone=False).name
+            cfg = amorph_cfg(rng, live)
+            n = rng.randint(14, 20)
+            sc = hex_scenario(rng, f"{pid}/amorph/{src.kind}>{cfg.fn}/{t}", "amorph", [src, cfg], n,
+                              rng.choice(["walk", "mixed"]), twins, forms=["obj", rng.choice(["obj", "dict"])],
+                              extra=rng.randint(1, 4) if "longer" in twins else 0)
+            out.append(sc)
+    for sc in out:
+        sc["clause_props"] = dict(sc.get("clause_props", {}), exc=[pid])
     return out
